@@ -304,6 +304,16 @@ radius of every point times its direction -/
 def Coords.asCartPts (dirs : List (Rat × Rat)) (c : Coords) : List (List Rat) :=
   List.zipWith (fun p d => polarToCart [p.headD 0, d.1, d.2]) c.points dirs
 
+/-- `PolarGrid.shifted(b)`: the grid is converted to Cartesian coordinates (direction of every point
+supplied, as for `asCartPts`) and shifted there — the result is a *Cartesian* grid -/
+def Coords.pshiftedPts (dirs : List (Rat × Rat)) (b : List Rat) (c : Coords) : List (List Rat) :=
+  (c.asCartPts dirs).map (shiftPt b)
+
+/-- `PolarGrid.shift(b)`, its three steps composed: polar → Cartesian, shift, Cartesian → polar
+(`[r, cos θ, sin θ]` per point; `none` where the new radius is irrational) -/
+def Coords.pshiftPts (dirs : List (Rat × Rat)) (b : List Rat) (c : Coords) : List (Option (List Rat)) :=
+  (c.pshiftedPts dirs b).map cartToPolar?
+
 def dot (r p : List Rat) : Rat := ratSum (List.zipWith (· * ·) r p)
 
 /-- matrix times point -/
